@@ -12,8 +12,11 @@ def run(cx):
     cx.rule("C01.R4", "handler error closes the connection: every path from handle()'s Err edge in the listen worker passes Stream::shutdown and leaves the loop")
     h, n = hc.check_tails(cx, "C01.R1", lambda after_dispatch: after_dispatch)
     cx.floor("C01.R1", "Ok returns of handle()", len(h.ok_assigns), 4)
+    from .C02 import r1_fresh
+    r1_fresh(cx, h, rule="C01.R1")
     r2(cx, h)
     r2b(cx, h)
+    hc.check_writer_passthrough(cx, "C01.R3", h)
     check_one_reply_paths(cx, "C01.R3")
     r4(cx)
     cx.rule("C01.R5", "per-call reply state: a reply is flagged `continues` (i.e. is not the final one) only through the gate of reply_struct — set_continues stores its argument, wants_more() is exact, the mismatch error writes nothing (shared with C05.R1)")
